@@ -69,7 +69,55 @@ def run(yaml_text, option=(), language=None, via_create_wrapper=False):
         shutil.rmtree(d, ignore_errors=True)
 
 
+def run_rel(yaml_text, via_create_wrapper):
+    """both entry points with the SAME relative output directory ('build/source', as in the documentation), from the same
+    working directory; every generated text file is compared, setup.py included (it names the sources)"""
+    from shroud import main as M
+    d = tempfile.mkdtemp(prefix="mopt_")
+    cwd = os.getcwd()
+    try:
+        f = os.path.join(d, "opt.yaml")
+        open(f, "w").write(yaml_text)
+        os.makedirs(os.path.join(d, "build", "source"))
+        os.chdir(d)
+        with contextlib.redirect_stdout(io.StringIO()):
+            try:
+                if via_create_wrapper:
+                    M.create_wrapper("opt.yaml", outdir="build/source")
+                else:
+                    a = args_for("opt.yaml", "build/source")
+                    a.logdir = ""
+                    a.write_version = True       # the command line's default, and what create_wrapper sets
+                    M.main_with_args(a)
+            except SystemExit as e:
+                return "exit", str(e)
+            except (RuntimeError, NotImplementedError) as e:
+                return "rejected", str(e)[:100]
+            except Exception as e:
+                return "internal", "%s: %s" % (type(e).__name__, str(e)[:100])
+        files = {}
+        out = os.path.join(d, "build", "source")
+        for n in sorted(os.listdir(out)):
+            if n.endswith((".c", ".cpp", ".h", ".f", ".hpp", ".py")):
+                files[n] = open(os.path.join(out, n)).read()
+        return "ok", files
+    finally:
+        os.chdir(cwd)
+        shutil.rmtree(d, ignore_errors=True)
+
+
 def check(inp):
+    if inp["kind"] == "create_wrapper_relative":
+        y = YAML % "options:\n  wrap_python: true"
+        a, b = run_rel(y, False), run_rel(y, True)
+        if b[0] == "internal":
+            return "create_wrapper: internal exception %s" % b[1]
+        if a[0] != b[0]:
+            return "command line -> %s, create_wrapper -> %s (relative outdir)" % (a[0], b[0])
+        if a[0] == "ok" and a[1] != b[1]:
+            diff = sorted(n for n in set(a[1]) | set(b[1]) if a[1].get(n) != b[1].get(n))
+            return "create_wrapper(outdir='build/source') differs from the command line with --outdir build/source in %s" % diff
+        return None
     kind = inp["kind"]
     if kind == "option":
         name, ytext, ctext = inp["name"], inp["yaml_value"], inp["cli_value"]
@@ -109,6 +157,7 @@ def check(inp):
 
 def candidates(seed, around=None):
     yield {"kind": "create_wrapper"}
+    yield {"kind": "create_wrapper_relative"}
     for lang in ("c", "c++"):
         yield {"kind": "language", "lang": lang}
     for t in ("debug", "foo=", "=3", "F_line_length", "a=b=c"):
